@@ -331,7 +331,7 @@ func genC15Stream(rng *rand.Rand) (stream []byte, kind string) {
 func TestC15(t *testing.T) {
 	r := rep.New(t, "C15")
 	defer r.Flush()
-	r.Rule("corpus of byte streams (valid frame sequences with minimal/16/64-bit forms, single-bit mutations, random bytes, 64-bit lengths up to 2^64-1); each stream is cut at EVERY offset and ended by EOF and by an injected error, x read limits {0,1,125,126,200,65535} x consumption {all, partial then NextReader, zero-length reads}; every return value of the real reader is checked against a reference parse; distinct = (corpus kind, cut class, variant, limit, pattern, outcome class)")
+	r.Rule("corpus of byte streams (valid frame sequences with minimal/16/64-bit forms, single-bit mutations, random bytes, 64-bit lengths up to 2^64-1); each stream is cut at EVERY offset and ended by EOF and by an injected error, x read limits {0,1,125,126,200,65535} x consumption {all, partial then NextReader, zero-length reads}, and after every NextReader the previous message's (stale) reader is read again; every return value of the real reader is checked against a reference parse; distinct = (corpus kind, cut class, variant, limit, pattern, outcome class)")
 	r.Assume("the documented guard (panic after 1000 reads of a failed connection) is never approached: at most 5 reads follow a failure")
 	nStreams := r.N(600, 40000)
 	rng := r.Rand(15)
